@@ -955,52 +955,24 @@ fn merge_list_struct(left: &dyn Array, right: &dyn Array) -> Arc<dyn Array> {
     }
 }
 
-/// Helper function to normalize validity buffers
-/// Returns None for all-null validity (placeholder structs)
-fn normalize_validity(
-    validity: Option<&arrow_buffer::NullBuffer>,
-) -> Option<&arrow_buffer::NullBuffer> {
-    validity.and_then(|v| {
-        if v.null_count() == v.len() {
-            None
-        } else {
-            Some(v)
-        }
-    })
-}
-
 /// Helper function to merge validity buffers from two struct arrays
-/// Returns None only if both arrays are null at the same position
 ///
-/// Special handling for placeholder structs (all-null validity)
+/// A merged row is null only if it is null on both sides.  A side without a validity
+/// buffer (or without nulls) is valid in every row, and so is the merged struct.  A side
+/// that is null in every row (e.g. a placeholder for fields a file does not have) leaves
+/// the validity of the other side.
 fn merge_struct_validity(
     left_validity: Option<&arrow_buffer::NullBuffer>,
     right_validity: Option<&arrow_buffer::NullBuffer>,
 ) -> Option<arrow_buffer::NullBuffer> {
-    // Normalize both validity buffers (convert all-null to None)
-    let left_normalized = normalize_validity(left_validity);
-    let right_normalized = normalize_validity(right_validity);
-
-    match (left_normalized, right_normalized) {
-        // Fast paths: no computation needed
-        (None, None) => None,
-        (Some(left), None) => Some(left.clone()),
-        (None, Some(right)) => Some(right.clone()),
-        (Some(left), Some(right)) => {
-            // Fast path: if both have no nulls, can return either one
-            if left.null_count() == 0 && right.null_count() == 0 {
-                return Some(left.clone());
-            }
-
-            let left_buffer = left.inner();
-            let right_buffer = right.inner();
-
+    match (left_validity, right_validity) {
+        (Some(left), Some(right)) if left.null_count() > 0 && right.null_count() > 0 => {
             // Perform bitwise OR directly on BooleanBuffers
             // This preserves the correct semantics: 1 = valid, 0 = null
-            let merged_buffer = left_buffer | right_buffer;
-
+            let merged_buffer = left.inner() | right.inner();
             Some(arrow_buffer::NullBuffer::from(merged_buffer))
         }
+        _ => None,
     }
 }
 
@@ -1950,6 +1922,29 @@ mod tests {
         assert_eq!(width_values.value(0), 300);
         assert_eq!(width_values.value(1), 200);
         assert!(width_values.is_null(2)); // width is null when right struct was null
+    }
+
+    #[test]
+    fn test_merge_struct_validity_is_or() {
+        let no_nulls = Int32Array::from(vec![1, 2]);
+        let mk = |name: &str, validity: Option<Vec<bool>>| {
+            StructArray::new(
+                Fields::from(vec![Field::new(name, DataType::Int32, true)]),
+                vec![Arc::new(no_nulls.clone()) as ArrayRef],
+                validity.map(|v| v.into()),
+            )
+        };
+        // one side has no validity buffer: it is valid everywhere, and so is the result
+        let merged = merge(&mk("a", Some(vec![false, true])), &mk("b", None));
+        assert_eq!(merged.null_count(), 0);
+        assert!(merged.column(0).is_null(0));
+        assert!(merged.column(1).is_valid(0));
+        // both sides null in every row: the result is null in every row
+        let merged = merge(
+            &mk("a", Some(vec![false, false])),
+            &mk("b", Some(vec![false, false])),
+        );
+        assert_eq!(merged.null_count(), 2);
     }
 
     #[test]
